@@ -9,7 +9,7 @@ from wheatley import page_parser, main as wmain
 NAMES = [None, "Alice", "Wheatley", "Bob", "alice"]
 
 
-def rand_history(rng, n):
+def rand_history(rng, n, neg=False):
     """Well-formed: users are announced before they are assigned; bells within 1..16."""
     msgs = []
     size = rng.choice([4, 6, 8, 12])
@@ -18,6 +18,9 @@ def rand_history(rng, n):
     # (namesakes, and names that differ from another only in case or in surrounding blanks: different people)
     pool = [(11, "Alice"), (12, "Bob"), (5, "Wheatley"), (13, "Alice"), (14, "Cara"), (15, "alice"), (16, " Wheatley"),
             (17, "wheatley"), (18, "BOB")]
+    if neg:
+        # (user ids are whatever the server says they are: some of its built-in users have ids below zero)
+        pool += [(-1, "Wheatley"), (-7, "Alice"), (-2, "Dan")]
     for _ in range(n):
         r = rng.random()
         if r < 0.12 or not known:
@@ -207,6 +210,9 @@ class C20(Prop):
         n = 250 if tier == "quick" else 3000
         for i in range(n):
             yield {"k": "tower", "msgs": rand_history(rng, rng.randint(3, 40)), "names": NAMES}
+        for i in range(n // 6):
+            # (the model's user ids are natural numbers: these histories are judged by the replay alone)
+            yield {"k": "tower", "msgs": rand_history(rng, rng.randint(3, 40), neg=True), "names": NAMES, "neg": True}
         for i in range(n // 8):
             yield self.ringing_case(rng)
         for i in range(120 if tier == "quick" else 1500):
@@ -285,6 +291,8 @@ class C20(Prop):
             return None
         if req["k"] == "world":
             return req.pop("_model_req", None)
+        if req.get("neg"):
+            return None
         return req
 
     def compare(self, req, ir, mr):
